@@ -105,7 +105,20 @@ def run(work, outp):
             out.write("%s\tdoes-not-apply\t\t%s\n" % (n, names[n]))
             continue
         hit, other = [], []
-        for c in CHECKS:
+        f = names[n].split(":")[0]
+        if f.startswith("src/sdcard/"):
+            subset = ["C12", "C13", "C14", "C19"]
+        elif f.endswith("filename.rs"):
+            subset = ["C06", "C17", "C18"]
+        elif f.endswith(("timestamp.rs", "attributes.rs", "ondiskdirentry.rs", "directory.rs", "files.rs")):
+            subset = ["C01", "C02", "C06", "C07", "C18"]
+        elif f.endswith(("bpb.rs", "info.rs")):
+            subset = ["C03", "C15", "C16"]
+        elif f.endswith("volume_mgr.rs"):
+            subset = [c for c in CHECKS if c not in ("C12", "C13", "C14", "C17", "C18", "C19")]
+        else:
+            subset = [c for c in CHECKS if c not in ("C08", "C12", "C13", "C14", "C17", "C18", "C19")]
+        for c in subset:
             rc = subprocess.run("cd /verif && ./check %s quick > /dev/null 2>&1" % c, shell=True).returncode
             if rc == 1:
                 hit.append(c)
